@@ -55,6 +55,10 @@ impl PatchIndexEntry {
     ///
     /// Returns the entry and the number of bytes consumed.
     pub fn parse(data: &[u8], key_size: u8) -> Option<Self> {
+        // Keys are stored in 16-byte arrays: a larger key size cannot be represented
+        if key_size > 16 {
+            return None;
+        }
         let size = entry_size(key_size);
         if data.len() < size {
             return None;
